@@ -219,39 +219,39 @@ NOT_APPLICABLE = {}
 EXTRA = {
     'C01': 'Also: every accumulation into the WHFast jerk buffer has dimension L T^-4 and all other sums in reb_whfast_calculate_jerk are homogeneous (R01.9); the SEI '
            'epicycle operator, summarised algebraically, is the exact flow of Hill\'s equations over dt/2 with the constants its init routine stores (R01.8); the catch-up loops for user '
-           'ODEs and for the TRACE/MERCURIUS sub-steps order times validly for both signs of the step and clamp their last sub-step (R08.8). A shortened last step of an exact_finish_time integration requested through Simulationarchive.getSimulation starts from a synchronised state (R09.11). Loops that accumulate the central body\'s acceleration never read it in the same loop (R01.10); every caller hands the Kepler solver G times a mass (R03.3); the N-body ODE that BS registers for itself is released before any other integrator advances the registered ODEs (R01.11); every integrator reached through reb_integrator_part1 sets gravity_ignore_terms, or uses a gravity mode that does not read it, before its forces are evaluated (R01.12). The conversion between physical and integer units of JANUS is the same at every stage, also when it is folded into the step-size arguments (scale probe, R10.3); every force term carries G once (R02.4, shared). Comparisons of one quantity with one literal draw the same line at every site - SABA corrector types (R01.13); members with a \'not set\' sentinel are given their default before they are read (R10.12); the position-only coordinate maps are the posvel maps restricted to positions (R12.1, shared).',
+           'ODEs and for the TRACE/MERCURIUS sub-steps order times validly for both signs of the step and clamp their last sub-step (R08.8). A shortened last step of an exact_finish_time integration requested through Simulationarchive.getSimulation starts from a synchronised state (R09.11). Loops that accumulate the central body\'s acceleration never read it in the same loop (R01.10); every caller hands the Kepler solver G times a mass (R03.3); the N-body ODE that BS registers for itself is released before any other integrator advances the registered ODEs (R01.11); every integrator reached through reb_integrator_part1 sets gravity_ignore_terms, or uses a gravity mode that does not read it, before its forces are evaluated (R01.12). The conversion between physical and integer units of JANUS is the same at every stage, also when it is folded into the step-size arguments (scale probe, R10.3); every force term carries G once (R02.4, shared). Comparisons of one quantity with one literal draw the same line at every site - SABA corrector types (R01.13); members with a \'not set\' sentinel are given their default before they are read (R10.12); the position-only coordinate maps are the posvel maps restricted to positions (R12.1, shared). In the WHFast corrector every kick uses accelerations computed from positions rebuilt after the last Kepler step (typestate, R01.14); the pair loops of the jerk routine start at the same index for active and test particles (R01.15); LEAPFROG advances the live particle (R10.14).',
     'C02': 'Also: the iteration spaces of the direct, compensated and hybrid-interaction pair loops equal the specified pair set (each pair once) for every ordering of N_active, '
            'test-particle count, test-particle type and gravity_ignore_terms in a complete small family (R02.8); integer variables of the hybrid integrators are typed global/compact '
            'index and never cross (R02.9); every sum, accumulation and comparison of the force routines and kick/drift/jump operators is dimensionally homogeneous over (L,T,M) (R02.4); '
-           'the box edges are one formula per axis. Per-axis membership tests of the tree (particle inside cell) mention each axis exactly once (R02.10). Arguments handed to helpers have the dimension of the parameter they bind (R02.4 at call sites); the cell-moment update handles the leaf case of the visited cell and guards the division by the cell mass (R02.11). The monopole data of the tree is refreshed for every root cell before every tree force evaluation (R15.12); root-box lookups treat the three axes alike (R15.9, shared). Root-box indices are a well-formed mixed radix and the same in both places that compute them (R15.4, shared); active counts are decremented for exactly the active particles (R14.5, shared).',
-    'C03': 'Also: the bisection fallback decides on a finite value (R03.6 - today a known finding: it is NaN-blind); the pair set of the direct and compensated routines leaves out exactly the term solved by the Kepler step for gravity_ignore_terms 1 and 2 (R02.8). The coordinate system whose kick compensates the central attraction names the same mass as its Kepler step (R03.7); the bracket of the bisection fallback is really exchanged for negative steps (R03.8); the cached Jacobi/heliocentric copy advanced by the Kepler step is declared stale for every deferred-mode consumer wherever code outside the integrators changes particles, and on any change of the particle count (R09.10); R09.11 as for C01. The state handed back by a synchronise is the synchronised one (R09.3: conversions to inertial coordinates precede the restore of the cached state). SABACM1 (type 0x100) is a corrector type at every site that asks (R01.13, shared).',
-    'C04': 'Also: every x/y/z statement triple of every function of every integrator source file is one formula under an axis permutation (R04.6). R03.7: drift and kick of the barycentric splitting add up to the N-body Hamiltonian. A rejected TRACE step restores every member of the integrator struct that the attempt incremented, the centre-of-mass position included (R04.7). Every pair enters the kick once for every ignore-terms setting (R02.8); R09.3 as for C03. Momentum sums of the central body are read only when complete (R01.10, shared). JANUS compares the particle count its integer state was built for with N by identity (R10.13); encounter sub-stepping orders times through the sign of the step (R08.8, shared).',
+           'the box edges are one formula per axis. Per-axis membership tests of the tree (particle inside cell) mention each axis exactly once (R02.10). Arguments handed to helpers have the dimension of the parameter they bind (R02.4 at call sites); the cell-moment update handles the leaf case of the visited cell and guards the division by the cell mass (R02.11). The monopole data of the tree is refreshed for every root cell before every tree force evaluation (R15.12); root-box lookups treat the three axes alike (R15.9, shared). Root-box indices are a well-formed mixed radix and the same in both places that compute them (R15.4, shared); active counts are decremented for exactly the active particles (R14.5, shared). A particle index is compared with N_active only as index < N_active / index >= N_active (52 sites, R02.12); every loop over r->tree_root visits all N_root root cells (R02.13).',
+    'C03': 'Also: the bisection fallback decides on a finite value (R03.6 - today a known finding: it is NaN-blind); the pair set of the direct and compensated routines leaves out exactly the term solved by the Kepler step for gravity_ignore_terms 1 and 2 (R02.8). The coordinate system whose kick compensates the central attraction names the same mass as its Kepler step (R03.7); the bracket of the bisection fallback is really exchanged for negative steps (R03.8); the cached Jacobi/heliocentric copy advanced by the Kepler step is declared stale for every deferred-mode consumer wherever code outside the integrators changes particles, and on any change of the particle count (R09.10); R09.11 as for C01. The state handed back by a synchronise is the synchronised one (R09.3: conversions to inertial coordinates precede the restore of the cached state). SABACM1 (type 0x100) is a corrector type at every site that asks (R01.13, shared). The operator word of a deferred WHFast run equals that of safe mode (R09.1, shared).',
+    'C04': 'Also: every x/y/z statement triple of every function of every integrator source file is one formula under an axis permutation (R04.6). R03.7: drift and kick of the barycentric splitting add up to the N-body Hamiltonian. A rejected TRACE step restores every member of the integrator struct that the attempt incremented, the centre-of-mass position included (R04.7). Every pair enters the kick once for every ignore-terms setting (R02.8); R09.3 as for C03. Momentum sums of the central body are read only when complete (R01.10, shared). JANUS compares the particle count its integer state was built for with N by identity (R10.13); encounter sub-stepping orders times through the sign of the step (R08.8, shared). Pending collisions are re-indexed consistently after a merger (R13.2, shared).',
     'C05': 'Also: the byte count of every case of the writer\'s dtype switch equals the size of the members the rows of that dtype designate (R05.8). Integer members classified inert (warning latches) guard nothing but messages, so a restored simulation takes the same path as the running one (R05.9); re-attaching the output leaves the persisted cadence counters alone (R06.5). The classification of unpersisted members is checked against the code: the compensated-summation scratch buffer is reset before it is read (R05.10), conditions on scratch counters guard only re-allocation and scratch state (R05.11); the reader\'s byte accounting follows read helpers and is path-sensitive (R05.5); the element counter of an array field is stored for every field read (R06.9); a picked-up snapshot receives the caller\'s keep_unsynchronized on the integrator in use (R09.7/R09.8/R09.11). Simulation(filename=...) and the class methods built on it read the file: keywords declared by __init__ are honoured by __new__ before its empty-object exit (R05.13), and no function of the Python layer loads a name that is bound nowhere (R18.11, shared). Persisted arrays of whole particles are zero-initialised where they are (re)allocated (R05.12). Writing a snapshot leaves the simulation unchanged (serialiser effect set, R19.4 shared); a state equal to the first snapshot is still appended (R06.10, shared). Snapshot 0 is restored as snapshot 0 (R06.11, shared).',
-    'C06': 'Also: descriptor rows designate the member they name (R05.2, shared with C05); every per-snapshot array of the archive index gets a value that does not depend on a field being present in the delta (R06.7). The loop that builds the archive index enlarges its arrays in the last iteration their capacity admits (R06.8); reb_particle_diff compares each member of one particle with the same member of the other (R06.6). The element counter of an array field is stored whatever the field\'s size, so a vanished array is dropped on load (R06.9); an empty delta is appended like any other (R06.10). Snapshot selectors of the Python layer are never tested by truthiness - snapshot 0 is a snapshot (R06.11); ordering comparisons between the interval schedule and the simulation time carry the sign of the timestep on both sides (R06.12). The prologue of the snapshot loader, evaluated on all indices -n-2..n+2 for n = 1, 3, maps -k to n-k and refuses everything outside -n..n-1 (R06.13); times are compared with the simulation time by identity or through one sign factor (R08.12, shared).',
-    'C07': 'Also: every branch of Simulation.save_to_file that calls a C save function drains the message queue afterwards (R07.9). Position + length is compared with the file size non-strictly, so a snapshot that ends exactly at EOF is kept (R07.11). A byte-wise read of the index scan compares the number of bytes it got with the number it asked for (R07.12). The final snapshot of integrate() is written after the full step size has been put back (R08.10, shared with C08). The snapshot loader accepts exactly the indices of completed snapshots (R06.13, shared).',
+    'C06': 'Also: descriptor rows designate the member they name (R05.2, shared with C05); every per-snapshot array of the archive index gets a value that does not depend on a field being present in the delta (R06.7). The loop that builds the archive index enlarges its arrays in the last iteration their capacity admits (R06.8); reb_particle_diff compares each member of one particle with the same member of the other (R06.6). The element counter of an array field is stored whatever the field\'s size, so a vanished array is dropped on load (R06.9); an empty delta is appended like any other (R06.10). Snapshot selectors of the Python layer are never tested by truthiness - snapshot 0 is a snapshot (R06.11); ordering comparisons between the interval schedule and the simulation time carry the sign of the timestep on both sides (R06.12). The prologue of the snapshot loader, evaluated on all indices -n-2..n+2 for n = 1, 3, maps -k to n-k and refuses everything outside -n..n-1 (R06.13); times are compared with the simulation time by identity or through one sign factor (R08.12, shared). Re-arming the automatic archive with another file stores that file name (R06.14); the comparison that decides whether a particle array goes into a delta is true exactly for \'different and not both NaN\' (R17.10, shared).',
+    'C07': 'Also: every branch of Simulation.save_to_file that calls a C save function drains the message queue afterwards (R07.9). Position + length is compared with the file size non-strictly, so a snapshot that ends exactly at EOF is kept (R07.11). A byte-wise read of the index scan compares the number of bytes it got with the number it asked for (R07.12). The final snapshot of integrate() is written after the full step size has been put back (R08.10, shared with C08). The snapshot loader accepts exactly the indices of completed snapshots (R06.13, shared). Conditions of the Python layer that name an integrator test the settings struct of that integrator (R07.13).',
     'C08': 'Also: the escape and close-encounter scans of the heartbeat range over the real particles only, compare in the right direction and set the matching status (R08.7); '
            'time and step comparisons of the catch-up loops, the exit test and the snapshot cadence are direction-normalised, and every catch-up loop clamps its last sub-step (R08.8); the swept-sphere tests of the line collision searches are typed the same way, the time of closest approach '
-           'taking the role of the step in the extrapolation formula; the synchronise that ends integrate() restores a keep_unsynchronized integrator and leaves its flag alone (R09.3, R09.9). getSimulation reaches integrate(exact_finish_time=1) only with keep_unsynchronized off (R09.11). The user\'s step size is stored when the last step is entered and not again on the retry path; the exit machine is read from reb_check_exit and helpers split off from it (R08.2); switches over r->status handle every enumerator or report (R01.1). Members of the simulation put aside in a local and assigned back at the end of a function (t, dt in the encounter sub-stepping) are restored on every way out (R08.9); the final snapshot of integrate() is written after r->dt = last_full_dt (R08.10). part2 functions record dt_last_done = dt after every call that can assign dt_last_done (R08.11); the simulation time is compared with stored times and with 0 in a direction-independent way (R08.12); the halting collision resolver sets the status on every path (R08.13).',
+           'taking the role of the step in the extrapolation formula; the synchronise that ends integrate() restores a keep_unsynchronized integrator and leaves its flag alone (R09.3, R09.9). getSimulation reaches integrate(exact_finish_time=1) only with keep_unsynchronized off (R09.11). The user\'s step size is stored when the last step is entered and not again on the retry path; the exit machine is read from reb_check_exit and helpers split off from it (R08.2); switches over r->status handle every enumerator or report (R01.1). Members of the simulation put aside in a local and assigned back at the end of a function (t, dt in the encounter sub-stepping) are restored on every way out (R08.9); the final snapshot of integrate() is written after r->dt = last_full_dt (R08.10). part2 functions record dt_last_done = dt after every call that can assign dt_last_done (R08.11); the simulation time is compared with stored times and with 0 in a direction-independent way (R08.12); the halting collision resolver sets the status on every path (R08.13). collision.c measures motion with dt_last_done and never reads dt (R08.14); every part2 records dt_last_done independently of the synchronisation options (R08.15).',
     'C09': 'Also: Simulationarchive.getSimulation sets the keep_unsynchronized switches before the first synchronising call in every branch (R09.7) and only on the integrator '
            'whose safe_mode it examined, because the C init routines refuse keep_unsynchronized with safe_mode (R09.8); the scratch copy of the Jacobi state is allocated and filled under exactly the path '
-           'conditions under which it is restored and freed (R09.9). Every block outside the integrators that raises a recalculate_coordinates flag raises it for each integrator that reads the flag when that integrator runs deferred; last-seen particle-count tests that guard a coordinate cache use != (R09.10); getSimulation reaches integrate(exact_finish_time=1) only with the switch off, over all mode x integrator x safe_mode x argument combinations (R09.11). Conversions to inertial coordinates in a synchronise routine precede the restore of the cached state (R09.3); the MERCURIUS frame typestate also covers option members raised between steps (R09.6); direct updates of a saved-and-restored cache are applied again after the restore (R09.12). Synchronize functions do not read members that integrate() resets on entry (dt_last_done, R09.13); the Python layer never writes the integrators\' bookkeeping flags (R10.11); saving or copying leaves the simulation unchanged (R19.4, shared). The exit machine of integrate() synchronises before it shortens the last step (R08.2/R08.3, shared); the synchronisation flags are persisted under their own name (R05.2, shared).',
+           'conditions under which it is restored and freed (R09.9). Every block outside the integrators that raises a recalculate_coordinates flag raises it for each integrator that reads the flag when that integrator runs deferred; last-seen particle-count tests that guard a coordinate cache use != (R09.10); getSimulation reaches integrate(exact_finish_time=1) only with the switch off, over all mode x integrator x safe_mode x argument combinations (R09.11). Conversions to inertial coordinates in a synchronise routine precede the restore of the cached state (R09.3); the MERCURIUS frame typestate also covers option members raised between steps (R09.6); direct updates of a saved-and-restored cache are applied again after the restore (R09.12). Synchronize functions do not read members that integrate() resets on entry (dt_last_done, R09.13); the Python layer never writes the integrators\' bookkeeping flags (R10.11); saving or copying leaves the simulation unchanged (R19.4, shared). The exit machine of integrate() synchronises before it shortens the last step (R08.2/R08.3, shared); the synchronisation flags are persisted under their own name (R05.2, shared). The corrector typestate (R01.14, shared) and the integrator-name conjuncts of the Python restart path (R07.13, shared).',
     'C10': 'Also: x/y/z triples of the reversible schemes (JANUS integer conversion included) are one formula per axis (R10.6); the SEI epicycle operator composed with itself under '
-           'dt -> -dt is the identity as a rational map and has unit Jacobian (R10.7). to_int after to_double is the identity on grid indices for every member (R10.8); R03.8 (bracket exchange for backward Kepler steps). A force evaluation does not depend on the previous one: the compensated-summation buffer is reset in every function that reads it (R10.9); by-value copies of member structs are not used after a call that assigns the member (R10.10). The WHFast operator word is a palindrome in every coordinate system (R10.5); the Python layer never writes is_synchronized / recalculate_* flags, so re-selecting the integrator in use is a no-op (R10.11); JANUS applies one unit conversion per operator at all stages (R10.3, scale probe). SEI substitutes the default vertical frequency before it caches the constants computed from it (R10.12); JANUS uses its integer state only for exactly the particle count it was built for (R10.13); a synchronisation that keeps the unsynchronised state leaves the integrator unsynchronised (R09.3, shared).',
+           'dt -> -dt is the identity as a rational map and has unit Jacobian (R10.7). to_int after to_double is the identity on grid indices for every member (R10.8); R03.8 (bracket exchange for backward Kepler steps). A force evaluation does not depend on the previous one: the compensated-summation buffer is reset in every function that reads it (R10.9); by-value copies of member structs are not used after a call that assigns the member (R10.10). The WHFast operator word is a palindrome in every coordinate system (R10.5); the Python layer never writes is_synchronized / recalculate_* flags, so re-selecting the integrator in use is a no-op (R10.11); JANUS applies one unit conversion per operator at all stages (R10.3, scale probe). SEI substitutes the default vertical frequency before it caches the constants computed from it (R10.12); JANUS uses its integer state only for exactly the particle count it was built for (R10.13); a synchronisation that keeps the unsynchronised state leaves the integrator unsynchronised (R09.3, shared). In integrator_leapfrog.c drift and kick read the velocity / acceleration of the particle they advance, not of a snapshot (R10.14).',
     'C11': 'Also: the reported pericentre time inverts the accepted formula M = n (t - T) for bound and unbound orbits as a symbolic identity (R11.8); component triples of the orbit '
-           'conversion outside the reference-plane stanzas are one formula per axis (R11.7). reb_mod2pi maps every finite angle into [0, 2 pi) (interval evaluation, R11.9); Python locals naming sub-expressions are inlined before the inline formulas of the two front ends are compared (R11.4). The massless-primary test of the constructor and of the read-back compare the same quantity (R11.10); the loop body of the Pal Kepler solver is a Newton step for the Jacobian of its own residuals (R11.11). The anomaly conversions of rebound/tools.py return nothing but the result of the C function of the same name (R11.12); methods of the wrapper classes keep no derived state on the Python object (R18.10, shared). Prototype and definition of a function do not name the same parameters in a different order (R11.13, on the names as written); helpers named after a None test compare with None (R11.14).',
+           'conversion outside the reference-plane stanzas are one formula per axis (R11.7). reb_mod2pi maps every finite angle into [0, 2 pi) (interval evaluation, R11.9); Python locals naming sub-expressions are inlined before the inline formulas of the two front ends are compared (R11.4). The massless-primary test of the constructor and of the read-back compare the same quantity (R11.10); the loop body of the Pal Kepler solver is a Newton step for the Jacobian of its own residuals (R11.11). The anomaly conversions of rebound/tools.py return nothing but the result of the C function of the same name (R11.12); methods of the wrapper classes keep no derived state on the Python object (R18.10, shared). Prototype and definition of a function do not name the same parameters in a different order (R11.13, on the names as written); helpers named after a None test compare with None (R11.14). Running centres of mass accumulate: com = com_of_pair(com, p) (R11.15).',
     'C13': 'Also: the opening radius of both tree collision walks is a sum containing the search radius of particle 1 (radius plus travel for the line search), a bound on the '
            'partner\'s radius, the partner drift bound (line search) and at least sqrt(3)/2 cell widths, and no parameter of the walks is merely handed down the recursion (R13.7); '
-           'the relative position/velocity stanzas of the hard-sphere resolver are one formula per axis. The largest and second-largest radius kept by reb_simulation_add are the two largest of (new, largest, second) on every ordering (R13.8); every tree-in-use test names both tree searches (R13.9). Every criterion accumulated into the MERCURIUS critical distance of particle i depends on particle i (R13.10). Tree searches exclude only the searching particle itself, by identity of the two indices (R13.11); the unsorted removal that the re-indexing of pending collisions assumes moves exactly the last particle into the hole (R14.14, shared). Drift distances added to search radii are magnitudes, |dt_last_done| times a speed, so the tree line search works backwards in time (R13.12). Leaf tests of tree cells draw the line at pt >= 0 everywhere, so particle 0 is a partner like any other (R01.13, shared); \'already merged at this time\' is an identity test on times (R08.12, shared).',
+           'the relative position/velocity stanzas of the hard-sphere resolver are one formula per axis. The largest and second-largest radius kept by reb_simulation_add are the two largest of (new, largest, second) on every ordering (R13.8); every tree-in-use test names both tree searches (R13.9). Every criterion accumulated into the MERCURIUS critical distance of particle i depends on particle i (R13.10). Tree searches exclude only the searching particle itself, by identity of the two indices (R13.11); the unsorted removal that the re-indexing of pending collisions assumes moves exactly the last particle into the hole (R14.14, shared). Drift distances added to search radii are magnitudes, |dt_last_done| times a speed, so the tree line search works backwards in time (R13.12). Leaf tests of tree cells draw the line at pt >= 0 everywhere, so particle 0 is a partner like any other (R01.13, shared); \'already merged at this time\' is an identity test on times (R08.12, shared). collision.c never reads r->dt (R08.14, shared); cell membership tests treat the axes alike (R15.9, shared); max_radius0/1 are persisted under their own names (R05.2, shared).',
     'C14': 'Also: qsort comparators are overflow-free three-way comparisons and the bisection orders the same unsigned key (R14.7); every function that releases a growable buffer '
-           'resets its capacity counter - 25 buffer/counter pairs taken from the growth sites (R14.8). reb_simulation_particle_by_hash answers without rebuilding the lookup table only on the path that saw a particle carrying the requested hash (R14.3); Particles.__getitem__ indexes the ctypes pointer only inside 0..N-1 for all key classes (R14.11). Each entry written while the lookup table is rebuilt is covered by a per-iteration capacity test or by a capacity made >= N before the loop (R14.2); the bulk particle setter mirrors the bulk getter assignment by assignment (R14.12). Index and hash selectors are never tested by truthiness (R14.13); the unsorted removal moves exactly one particle (R14.14); a leaf\'s occupant is set only in a freshly allocated cell, so a flagged particle stays reachable until the tree update drops it (R15.13); the particle view keeps no cached array (R18.10, shared). Stores into a particle hash take an integer value (R14.15); every refusal of reb_simulation_add_local precedes the increment of r->N (R14.16).',
-    'C15': 'Also: box set-up (boxsize, root counts) is one formula per axis; the loops of reb_boundary_check cover the real particles only (R15.8). Per-axis tests joined by ||/&& and products of three per-axis factors mention x, y and z once each (R15.9); descriptor rows of the box geometry designate the member they name (R05.2). The cell-moment update handles the leaf case of the visited cell and guards divisions by the cell mass (R15.10); ghost-box image loops of every gravity routine treat the axes alike (R02.2). Every tree update of reb_simulation_step is reached whenever tree_needs_update is raised (R15.11); the monopole data is refreshed on every call (R15.12); a leaf\'s occupant is never replaced (R15.13); \'tree in use\' predicates written as a conjunction of != tests name the same module set (R15.7). Comparisons of a coordinate with half the box size are strict everywhere, as in the boundary code (R15.14); leaf tests agree at every site (R01.13, shared).',
+           'resets its capacity counter - 25 buffer/counter pairs taken from the growth sites (R14.8). reb_simulation_particle_by_hash answers without rebuilding the lookup table only on the path that saw a particle carrying the requested hash (R14.3); Particles.__getitem__ indexes the ctypes pointer only inside 0..N-1 for all key classes (R14.11). Each entry written while the lookup table is rebuilt is covered by a per-iteration capacity test or by a capacity made >= N before the loop (R14.2); the bulk particle setter mirrors the bulk getter assignment by assignment (R14.12). Index and hash selectors are never tested by truthiness (R14.13); the unsorted removal moves exactly one particle (R14.14); a leaf\'s occupant is set only in a freshly allocated cell, so a flagged particle stays reachable until the tree update drops it (R15.13); the particle view keeps no cached array (R18.10, shared). Stores into a particle hash take an integer value (R14.15); every refusal of reb_simulation_add_local precedes the increment of r->N (R14.16). ..._by_hash wrappers forward the parameters they share with the function they wrap (R14.17).',
+    'C15': 'Also: box set-up (boxsize, root counts) is one formula per axis; the loops of reb_boundary_check cover the real particles only (R15.8). Per-axis tests joined by ||/&& and products of three per-axis factors mention x, y and z once each (R15.9); descriptor rows of the box geometry designate the member they name (R05.2). The cell-moment update handles the leaf case of the visited cell and guards divisions by the cell mass (R15.10); ghost-box image loops of every gravity routine treat the axes alike (R02.2). Every tree update of reb_simulation_step is reached whenever tree_needs_update is raised (R15.11); the monopole data is refreshed on every call (R15.12); a leaf\'s occupant is never replaced (R15.13); \'tree in use\' predicates written as a conjunction of != tests name the same module set (R15.7). Comparisons of a coordinate with half the box size are strict everywhere, as in the boundary code (R15.14); leaf tests agree at every site (R01.13, shared). Loops over the root cells run over all of them (R02.13, shared); ghost rings of the tree searches are taken per axis (R13.5, shared).',
     'C16': 'Also: in WHFast every Jacobi<->inertial conversion of the real particles stands next to the same conversion of every variational configuration where the statement list has one (R16.6); '
            'automatic rescaling divides every per-coordinate array the IAS15 allocator sizes by the same scale (R16.7); members of a variational configuration that only the second-order '
-           'constructor fills are read under a test of the same configuration\'s order (R16.8); boundary conditions never touch variational particles (R15.8). The first-order variational pair kernels of reb_calculate_acceleration_var are the directional derivative of the Newtonian pair acceleration, mass variation included (R16.9); no parameter of Variation\'s Python methods is ignored (R16.10). The acc variant of every transformation is the pos variant\'s map (R12.1); moving to the centre of mass uses totals from completed loops, also when the loop body names sub-expressions (R20.7). The transformed variational particle is stored on every pass of the loop over the configurations in the Kepler solver (R16.11). MEGNO treats t = 0, not t <= 0, as the special instant (R08.12, shared); the variation of test particle 0 is recognised (R01.13, shared); variational sets use the counts of the real particles (R16.12).',
-    'C17': 'Also: descriptor rows designate the member they name (R05.2) and the archive heartbeat advances the deadline before it writes (R06.5), so a stored snapshot equals the live state. R06.8 (the index holds every snapshot) and the operand discipline of reb_particle_diff (R17.5). Coordinate transformations never store whole particles (with their memory addresses) into persisted caches (R17.7); unpersisted warning latches do not steer a copy differently from its source (R17.8); R06.9. reb_particle_diff lets the both-NaN case through for every floating-point member it compares, so the comparison is reflexive (R17.9). Every member a copy needs is persisted (R05.1, shared); saving leaves the source unchanged (R19.4, shared); a state equal to the first snapshot is still written (R06.10, shared). Inert warning latches, also the ones inside member structs, guard nothing but messages: no jump, no write to other state, no call that acts on the simulation (R17.8); snapshot 0 is restored as snapshot 0 (R06.11, shared); persisted particle arrays are zero-initialised (R05.12, shared).',
+           'constructor fills are read under a test of the same configuration\'s order (R16.8); boundary conditions never touch variational particles (R15.8). The first-order variational pair kernels of reb_calculate_acceleration_var are the directional derivative of the Newtonian pair acceleration, mass variation included (R16.9); no parameter of Variation\'s Python methods is ignored (R16.10). The acc variant of every transformation is the pos variant\'s map (R12.1); moving to the centre of mass uses totals from completed loops, also when the loop body names sub-expressions (R20.7). The transformed variational particle is stored on every pass of the loop over the configurations in the Kepler solver (R16.11). MEGNO treats t = 0, not t <= 0, as the special instant (R08.12, shared); the variation of test particle 0 is recognised (R01.13, shared); variational sets use the counts of the real particles (R16.12). The cached coordinates of variational particles are rolled back with those of the real ones (R09.3, shared); the MEGNO accumulators are persisted under their own names (R05.2, shared).',
+    'C17': 'Also: descriptor rows designate the member they name (R05.2) and the archive heartbeat advances the deadline before it writes (R06.5), so a stored snapshot equals the live state. R06.8 (the index holds every snapshot) and the operand discipline of reb_particle_diff (R17.5). Coordinate transformations never store whole particles (with their memory addresses) into persisted caches (R17.7); unpersisted warning latches do not steer a copy differently from its source (R17.8); R06.9. reb_particle_diff lets the both-NaN case through for every floating-point member it compares, so the comparison is reflexive (R17.9). Every member a copy needs is persisted (R05.1, shared); saving leaves the source unchanged (R19.4, shared); a state equal to the first snapshot is still written (R06.10, shared). Inert warning latches, also the ones inside member structs, guard nothing but messages: no jump, no write to other state, no call that acts on the simulation (R17.8); snapshot 0 is restored as snapshot 0 (R06.11, shared); persisted particle arrays are zero-initialised (R05.12, shared). reb_particle_diff\'s per-member comparison, evaluated on (equal, different, NaN/number, number/NaN, NaN/NaN), is true exactly for the middle three (R17.10); scratch buffers carry nothing between force evaluations (R05.10/R05.11, shared).',
     'C18': 'Also: no parameter of a function of the Python layer is ignored or overwritten on every path before its first read (R18.8, 10 frozen exceptions); the shortcut names of Simulation.integrator, in if-chain or table form, leave pairwise different configurations (R18.9). Option tables computed at import time are folded before comparison with the C enum. Every global name loaded by a function of the Python layer is bound at module level, in an enclosing scope or in the builtins (R18.11). Methods of Simulation, Particles, Particle, Orbit and Rotation store nothing on the Python object except C struct members, settable properties, constructor identity and the confirmed keep-alive references (R18.10). Variation.particles decides \'test particle variation\' with the same comparison as the C code (R01.13, shared).',
-    'C12': 'Also: transformation calls selected by a coordinate-system constant belong to one system per constant at every site (R12.6). Variational sets are transformed with the same particle counts as the real particles next to them (R16.12); forward and inverse democratic-heliocentric maps of MERCURIUS and TRACE sum over the same bodies (R12.7); prototype/definition parameter order (R11.13, shared).',
-    'C19': 'Also: the one capacity counter the serialiser lowers is lowered to a size the owner\'s growth test itself asks for (R19.4). The owner of a capacity the serialiser trims tests it with capacity < need only, the one test whose outcome is the same before and after trimming (R19.4). A descriptor handed to fdopen is closed once, through its stream: no close() of a descriptor whose stream was fclose()d (R19.6). A file-scope object assigned different values at different sites counts as shared state (R19.1); switches over r->status handle the statuses a client can set (R01.1). Descriptor rows designate the member they name, so a served snapshot carries every flag under its own name (R05.2, shared).',
+    'C12': 'Also: transformation calls selected by a coordinate-system constant belong to one system per constant at every site (R12.6). Variational sets are transformed with the same particle counts as the real particles next to them (R16.12); forward and inverse democratic-heliocentric maps of MERCURIUS and TRACE sum over the same bodies (R12.7); prototype/definition parameter order (R11.13, shared). A map back to inertial coordinates does not read a destination mass before it has stored it (R12.8).',
+    'C19': 'Also: the one capacity counter the serialiser lowers is lowered to a size the owner\'s growth test itself asks for (R19.4). The owner of a capacity the serialiser trims tests it with capacity < need only, the one test whose outcome is the same before and after trimming (R19.4). A descriptor handed to fdopen is closed once, through its stream: no close() of a descriptor whose stream was fclose()d (R19.6). A file-scope object assigned different values at different sites counts as shared state (R19.1); switches over r->status handle the statuses a client can set (R01.1). Descriptor rows designate the member they name, so a served snapshot carries every flag under its own name (R05.2, shared). Every \'tree in use\' site names both tree searches, so a served or restored linetree snapshot gets its tree back (R19.7 = R15.7, shared).',
     'C20': 'Also: in reb_simulation_move_to_com the totals come from completed loops over the right member and the per-particle summands of the first- and second-order shifts equal '
            'the first and mixed second derivative of sum m x / sum m (R20.7); units_convert_particle converts every dimensional field, also when written as a setattr loop. No parameter of the scaling/rotation wrappers is ignored or overwritten before it is read (R20.8); the inline conversions of the Python front end carry G exactly as the C ones do (R11.4, R11.8); every quaternion returned by reb_rotation_init_from_to is built from normalised vectors (unit typestate, R20.9); reb_rotation_to_orbital returns angles whose sum / difference reproduce the two arctangents that determine the rotation in each of its three branches, given the half-angle form of reb_rotation_init_orbit derived symbolically (R20.10). The effect sets of reb_simulation_imul/iadd/isub on a particle are exactly positions and velocities (R20.11); the vector constructors copy their arguments (R20.12). reb_rotation_init_to_new_axes projects on the normalised new z axis and is the product of from_to(newz, z) and a rotation about z (R20.13). reb_simulation_com sums over all real particles (R20.14). The methods of the vector and rotation classes load only bound names (R18.11, shared); Rotation constructors that build their result with a C function return nothing else (R20.15). Frame shifts are carried out for a single particle too (R20.16).',
 }
